@@ -10,7 +10,7 @@ from __future__ import annotations
 import ast
 
 from gridlint import e6
-from gridlint.core import AnalysisError, Report, norm
+from gridlint.core import AnalysisError, Report, norm, strip_docstring
 from gridlint.props.common import get_repo
 
 PROP = "C13"
@@ -195,6 +195,79 @@ def rule_layout(rep, repo):
     rep.floor("tensor-product branches of Tensor1DGrids", n, 2)
 
 
+def rule_index_maps(rep, repo):
+    """The flat-index maps are a mixed-radix pair: the strides by which `coordinates_to_index`
+    multiplies the coordinates must be exactly the divisors by which `index_to_coordinates` peels
+    them off, (n1*n2, n2, 1) in 3-D and (n1, 1) in 2-D.  Both tables are evaluated symbolically
+    (monomials in the per-axis point counts) for each dimensionality and compared."""
+    from gridlint import e7
+    fwd = repo.method("_HyperRectangleGrid", "coordinates_to_index")
+    inv = repo.method("_HyperRectangleGrid", "index_to_coordinates")
+    for nd in (2, 3):
+        si = e7.SeqInterp(nd)
+        try:
+            si.run(strip_docstring(fwd.node.body))
+            if si.ret is None:
+                raise e7.SeqInterp.Undecided("no return")
+            r = si.ev(si.ret)
+        except e7.SeqInterp.Undecided as e:
+            raise AnalysisError(f"index maps ({nd}D): cannot evaluate the strides of coordinates_to_index: {e}") from e
+        if not (isinstance(r, tuple) and r[0] == "dot" and isinstance(r[2], list)):
+            raise AnalysisError("index maps: coordinates_to_index does not return np.dot(indices, strides)")
+        strides = r[2]
+        if any(x == "uninit" for x in strides) or len(strides) != nd:
+            rep.violation("index-map-strides", "cubic._HyperRectangleGrid.coordinates_to_index", f"{nd}D:defined",
+                          f"in {nd}D the stride table has {len(strides)} entries / uninitialised entries", fwd.loc())
+            continue
+        want = []
+        acc = si.c(1)
+        for k in range(nd - 1, -1, -1):
+            want.insert(0, acc)
+            acc = si.mul(acc, si.sym(k))
+        got_txt = "(" + ", ".join(e7.show_mono_poly(x) for x in strides) + ")"
+        want_txt = "(" + ", ".join(e7.show_mono_poly(x) for x in want) + ")"
+        if strides == want:
+            rep.ok("index-map-strides", f"_HyperRectangleGrid.coordinates_to_index[{nd}D]", fwd.loc(), f"row-major strides {got_txt}")
+        else:
+            rep.violation("index-map-strides", "cubic._HyperRectangleGrid.coordinates_to_index", f"{nd}D:row-major",
+                          f"in {nd}D the flat index is formed with strides {got_txt}; the row-major layout of the points "
+                          f"(last index fastest) needs {want_txt}: wrong points are addressed whenever the trailing point "
+                          f"counts differ", fwd.loc())
+        # inverse: divisors of the floor divisions in the branch taken for this dimensionality
+        sj = e7.SeqInterp(nd)
+        try:
+            sj.run(strip_docstring(inv.node.body))
+        except e7.SeqInterp.Undecided as e:
+            raise AnalysisError(f"index maps ({nd}D): cannot follow index_to_coordinates: {e}") from e
+        divs = []
+        branch = _branch_for_dim(inv.node, nd)
+        for n in ast.walk(ast.Module(body=branch, type_ignores=[])):
+            if isinstance(n, ast.BinOp) and isinstance(n.op, ast.FloorDiv):
+                try:
+                    divs.append(sj.ev(n.right))
+                except e7.SeqInterp.Undecided as e:
+                    raise AnalysisError(f"index maps ({nd}D): divisor `{norm(n.right)}`: {e}") from e
+        divs_sorted = sorted(divs, key=lambda p: -max((sum(e for _, e in m) for m in p), default=0))
+        if divs_sorted == strides[:-1] == want[:-1]:
+            rep.ok("index-map-strides", f"_HyperRectangleGrid.index_to_coordinates[{nd}D]", inv.loc(),
+                   "divisors " + ", ".join(e7.show_mono_poly(x) for x in divs_sorted) + " = forward strides")
+        elif strides == want:
+            rep.violation("index-map-strides", "cubic._HyperRectangleGrid.index_to_coordinates", f"{nd}D:inverse",
+                          f"in {nd}D index_to_coordinates divides by ({', '.join(e7.show_mono_poly(x) for x in divs_sorted)}) but "
+                          f"coordinates_to_index multiplies by {got_txt}: the two maps are not inverse to each other",
+                          inv.loc())
+
+
+def _branch_for_dim(fn, nd):
+    body = strip_docstring(fn.body)
+    for i, s in enumerate(body):
+        if isinstance(s, ast.If) and norm(s.test) in ("self.ndim == 3", "len(self.shape) == 3"):
+            return s.body if nd == 3 else (s.orelse or body[i + 1:])
+        if isinstance(s, ast.If) and norm(s.test) in ("self.ndim == 2", "len(self.shape) == 2"):
+            return s.body if nd == 2 else (s.orelse or body[i + 1:])
+    return body
+
+
 def run(tier="quick", root="/repo", evidence_dir=None, quiet=False):
     rep = Report(PROP, tier, root, EXPLANATION, RULE, assumptions=[
         "the guards listed in the checker (dim == 3, self.ndim == 3, len(shape) == 3, oned_z is not None and the "
@@ -250,7 +323,8 @@ def run(tier="quick", root="/repo", evidence_dir=None, quiet=False):
         rep.violation("weight-scheme-returns", "cubic.UniformGrid._choose_weight_scheme", "else",
                       "unknown weight names are not rejected", repo.rel("cubic", node))
     rep.floor("weight schemes", len(keys), 5)
-    rule_layout(rep, repo)
+    rep.attempt(rule_layout, rep, repo)
+    rep.attempt(rule_index_maps, rep, repo)
     rep.extra.update({"functions_in_scope": len(scope), "weight_schemes": keys, "source_digest": repo.digest(["cubic"])})
     return rep.finish(evidence_dir=evidence_dir, quiet=quiet)
 
